@@ -474,10 +474,63 @@ def _patch_shuffle(mod):
     cls = mod.Shuffle
     orig = cls.global_setup
 
+    def hostile_rng_user():
+        """Another thread of the process (started by a test module at
+        import, say) uses the module-level ``random`` functions while the
+        shuffle runs; a LINE callback on the shuffling code hands the GIL
+        over at statement starts, so the two really interleave.  The order
+        must depend on the seed only."""
+        import random
+        import time
+        stop = []
+
+        def spin():
+            while not stop:
+                random.random()
+                random.seed()
+        th = threading.Thread(target=spin, name='ztr-rng-user')
+        th.daemon = True
+        th.start()
+        mon = getattr(sys, 'monitoring', None)
+        tool = 3
+        armed = False
+        if mon is not None:
+            try:
+                mon.use_tool_id(tool, 'ztr-shuffle-yield')
+
+                def cb(code, line):
+                    count('shuffle.yields')
+                    time.sleep(0.0002)
+                mon.register_callback(tool, mon.events.LINE, cb)
+                mon.set_local_events(tool, orig.__code__, mon.events.LINE)
+                armed = True
+            except ValueError:
+                pass
+
+        def done():
+            stop.append(1)
+            th.join(5)
+            if armed:
+                try:
+                    mon.set_local_events(tool, orig.__code__, 0)
+                    mon.register_callback(tool, mon.events.LINE, None)
+                    mon.free_tool_id(tool)
+                except ValueError:
+                    pass
+        return done
+
     def global_setup(self):
         before = {k: sorted(str(t) for t in v)
                   for k, v in self.runner.tests_by_layer_name.items()}
-        r = orig(self)
+        done = None
+        if os.environ.get('ZTR_SHUFFLE_HOSTILE') == '1':
+            done = hostile_rng_user()
+            count('shuffle.hostile')
+        try:
+            r = orig(self)
+        finally:
+            if done is not None:
+                done()
         count('eval.shuffle')
         after = {k: sorted(str(t) for t in v)
                  for k, v in self.runner.tests_by_layer_name.items()}
